@@ -2,7 +2,7 @@
    Statements only; proofs in Hostlist/HLPrintFacts.v.
    In the model every store into the caller's buffer is bounds-checked against the size
    given (the buffer IS a list of that many bytes) and an out-of-range store is Fault. *)
-From PV Require Import Base.DecimalFacts Hostlist.HLDefs Hostlist.HLFacts Hostlist.HLPrint Hostlist.HLPrintFacts Hostlist.HLRangedFit.
+From PV Require Import Base.DecimalFacts Hostlist.HLDefs Hostlist.HLFacts Hostlist.HLPrint Hostlist.HLPrintFacts Hostlist.HLRangedFit Hostlist.HLRangedTrunc Hostlist.HLSpec Hostlist.HLParseFacts Hostlist.HLRangedRoundtrip.
 Local Open Scope N_scope.
 
 Definition no_fault {A} (o : outcome A) : Prop := match o with Fault _ => False | _ => True end.
@@ -39,18 +39,59 @@ Theorem C14_ranged_fit_independent : forall l buf1 buf2 b1 b2 r1 r2, ~ In 0 (ran
 Proof. exact ranged_fit_independent. Qed.
 Print Assumptions C14_ranged_fit_independent.
 
+(* ... and when it does not fit: truncation is reported and the buffer holds exactly the first n-1 bytes of that text, terminated.
+   Together: for every list and every non-empty buffer the outcome is decided by comparing the length of [ranged_text l] with
+   the size, and it is either the whole text or its longest prefix that leaves room for the terminator. *)
+Theorem C14_ranged_truncation : forall l buf, ~ In 0 (ranged_text l) -> buf <> [] -> (length buf <= length (ranged_text l))%nat ->
+  exists b, ranged_string l buf = Ok (b, None) /\ cstring b = Some (firstn (length buf - 1) (ranged_text l)).
+Proof. exact ranged_truncation. Qed.
+Print Assumptions C14_ranged_truncation.
+
 Theorem C14_ranged_text_groups : forall l, Forall named l -> ranged_text l = join 44 (gtexts (S (length l)) l).
 Proof. exact ranged_text_groups. Qed.
 Print Assumptions C14_ranged_text_groups.
+
+(* the compressed text reads back: pdsh's own pass over a target list (hostlist_create, then the second pass of wcoll_expand -
+   the parser model of C01) applied to [ranged_text l] yields exactly the hosts of l, in order, repeats included.  [printable]:
+   numbers below the parser's limit, prefixes over the name alphabet, no empty plain name, at most MAX_RANGE hosts a range,
+   at most MAX_RANGES ranges, names short enough for the parser's fixed buffers.  Obtained from C01_expansion by exhibiting
+   the syntax tree whose text is [ranged_text l] and whose meaning is [expand l]. *)
+Theorem C14_ranged_roundtrip : forall l, printable l -> targets (ranged_text l) = Ok (expand l).
+Proof. exact ranged_roundtrip. Qed.
+Print Assumptions C14_ranged_roundtrip.
+
+(* the clause of the property in one statement: whenever the compressed form fits in the caller's buffer, what the buffer
+   holds is terminated, its length is the length reported, and it parses back to exactly the same host sequence *)
+Theorem C14_ranged_lossless : forall l buf, printable l -> ~ In 0 (ranged_text l) -> (length (ranged_text l) < length buf)%nat ->
+  exists b t, ranged_string l buf = Ok (b, Some (length t)) /\ cstring b = Some t /\ targets t = Ok (expand l).
+Proof.
+  intros l buf Hp Hn Hf. destruct (ranged_fit l buf Hn Hf) as (b & E & C).
+  exists b, (ranged_text l). split; [exact E|]. split; [exact C|]. apply ranged_roundtrip. exact Hp.
+Qed.
+Print Assumptions C14_ranged_lossless.
+
+Example C14_printable_nonvacuous :
+  printable [mkhr [97] 8 11 1 false; mkhr [97] 13 13 1 false; mkhr [98] 0 0 0 true; mkhr [99] 5 5 3 false].
+Proof.
+  unfold printable. split; [|split].
+  - repeat (apply Forall_cons; [unfold rprint, hr_ok2, hr_ok, NUM_LIMIT, named, MAX_RANGE; cbn [single lo hi wid pfx];
+                                  repeat split; try lia; try reflexivity; try congruence|]). apply Forall_nil.
+  - match goal with |- Forall short (expand ?l) =>
+      assert (E : expand l = [[97;56]; [97;57]; [97;49;48]; [97;49;49]; [97;49;51]; [98]; [99;48;48;53]]) by (vm_compute; reflexivity);
+      rewrite E end.
+    repeat (apply Forall_cons; [unfold short, SUFFIX_HOST_SIZE, CUR_TOK_SIZE; cbn [length]; lia|]). apply Forall_nil.
+  - cbn [length]. unfold MAX_RANGES. lia.
+Qed.
 
 Example C14_ranged_fit_nonvacuous :
   let l := [mkhr [97] 8 11 1 false; mkhr [97] 13 13 1 false; mkhr [98] 0 0 0 true; mkhr [99] 5 5 3 false] in
   ~ In 0 (ranged_text l) /\ Forall named l /\
   ranged_text l = [97;91;56;45;49;49;44;49;51;93;44;98;44;99;48;48;53] /\      (* a[8-11,13],b,c005 *)
-  gtexts (S (length l)) l = [[97;91;56;45;49;49;44;49;51;93]; [98]; [99;48;48;53]].
+  gtexts (S (length l)) l = [[97;91;56;45;49;49;44;49;51;93]; [98]; [99;48;48;53]] /\
+  (exists b, ranged_string l (repeat 170 12) = Ok (b, None) /\ cstring b = Some [97;91;56;45;49;49;44;49;51;93;44]).   (* 12 bytes: a[8-11,13], *)
 Proof.
   cbn zeta. split; [vm_compute; intuition discriminate|]. split; [repeat constructor; unfold named; cbn; congruence|].
-  split; vm_compute; reflexivity.
+  split; [vm_compute; reflexivity|]. split; [vm_compute; reflexivity|]. eexists. vm_compute. split; reflexivity.
 Qed.
 
 (* expanded form: exact characterisation.  It fits iff the comma-joined expansion is
